@@ -31,6 +31,7 @@ def deck_features(d):
     f['universes'] = len(set(c.u for c in d.cells))
     f['fills'] = sum(1 for c in d.cells if c.fill is not None)
     f['lattices'] = sum(1 for c in d.cells if c.lat)
+    f['tiny-tilt'] = 1 if getattr(d, '_tiny_tilt', False) else 0
     f['trcl'] = sum(1 for c in d.cells if c.trcl is not None)
     f['filltr'] = sum(1 for c in d.cells if c.fill and c.fill.get('tr') is not None)
     f['surftr'] = sum(1 for s in d.surfs if s.tr is not None)
